@@ -159,6 +159,36 @@ def _impl(tier, seed, search):
             fr = finite_real(Lg)
             L.check('log-so2:finite', fr, dict(R=R2m, theta=th2), f'trlog2(R) is not finite/real at rotation angle {th2:.6g}', sig='log-so2:nonfinite', observed=repr(Lg)[:200])
             if fr: L.close('exp-log-so2', inputs.r2(float(np.asarray(Lg).ravel()[0])), R2m, TOL, 1.0, dict(R=R2m))
+    # ---- exact half turns: R = 2aa' - I is exactly symmetric (zero skew part), the axis must come from the symmetric part ----
+    half = [np.diag([1.0, -1, -1]), np.diag([-1.0, 1, -1]), np.diag([-1.0, -1, 1]),
+            np.array([[0.0, 1, 0], [1, 0, 0], [0, 0, -1]]), np.array([[0.0, 0, 1], [0, -1, 0], [1, 0, 0]]), np.array([[-1.0, 0, 0], [0, 0, 1], [0, 1, 0]])]
+    for a_ in ([1, 1, 0], [1, 0, 1], [0, 1, 1], [1, 1, 1], [3, 4, 0], [1, 2, 2], [2, 3, 6], [-1, 2, 2], [1, -4, 8]):
+        a_ = np.array(a_, float); a_ = a_ / np.linalg.norm(a_)
+        half.append(2 * np.outer(a_, a_) - np.eye(3))
+    for k_ in range(6 if tier == 'quick' else 60):
+        a_ = axis(g); H = 2 * np.outer(a_, a_) - np.eye(3); half.append((H + H.T) / 2)
+    for H in half:
+        inp = dict(R=H)
+        for twist in (False, True):
+            ok, Lg = L.noraise('log-halfturn', lambda: b.trlog(H, check=False, twist=twist), inp, 'trlog of an exactly symmetric half turn')
+            if ok and finite_real(Lg):
+                wv = np.asarray(Lg, float) if twist else np.array([Lg[2, 1], Lg[0, 2], Lg[1, 0]], float)
+                L.close('exp-log-halfturn', ref_exp(skew(wv)), H, TOL, 1.0, inp, what='exp(log R) differs from R for an exactly symmetric half turn', sig='exp-log-so3:halfturn')
+        Th = np.eye(4); Th[:3, :3] = H; Th[:3, 3] = [0.3, -1.2, 2.0]
+        ok, Lg = L.noraise('log-halfturn-se3', lambda: b.trlog(Th, check=False, twist=True), dict(T=Th), 'trlog(T) with an exactly symmetric half turn')
+        if ok and finite_real(Lg): L.close('exp-log-halfturn-se3', ref_exp(skewa(np.asarray(Lg, float))), Th, TOL, 3.0, dict(T=Th), sig='exp-log-se3:halfturn')
+    # ---- trexp2(S, theta) == trexp2(theta * S) for planar unit twists of either sense, vector and matrix form ---------------
+    for k_ in range(40 if tier == 'quick' else 600):
+        wsign = float(g.choice([-1.0, 1.0])); vv = g.normal(size=2) * 10.0 ** g.uniform(-3, 2)
+        S2u = np.r_[vv, wsign]; th_ = float(g.uniform(-math.pi, math.pi))
+        inp = dict(S=S2u, theta=th_)
+        ok, r = L.noraise('exp2-theta', lambda: (b.trexp2(S2u, th_), b.trexp2(S2u * th_)), inp, 'trexp2(S, theta)')
+        if ok: L.close('exp2-theta', r[0], r[1], TOL, max(1.0, geom.tmag(r[1])), inp, what='trexp2(S, theta) differs from trexp2(theta*S)', sig='exp2-theta')
+        M2u = np.array([[0, -wsign, vv[0]], [wsign, 0, vv[1]], [0, 0, 0]])
+        ok, r = L.noraise('exp2-theta-matrix', lambda: (b.trexp2(M2u, th_), ref_exp(M2u * th_)), inp, 'trexp2(se2 matrix, theta)')
+        if ok: L.close('exp2-theta-matrix', r[0], r[1], TOL, max(1.0, geom.tmag(r[1])), inp, sig='exp2-theta')
+        ok, r = L.noraise('exp2-theta-so2', lambda: (b.trexp2(wsign, th_), inputs.r2(wsign * th_)), dict(w=wsign, theta=th_), 'trexp2(w, theta)')
+        if ok: L.close('exp2-theta-so2', r[0], r[1], TOL, 1.0, dict(w=wsign, theta=th_), sig='exp2-theta')
     return L.result()
 
 if __name__ == '__main__':
